@@ -36,7 +36,9 @@ import (
 
 type target struct {
 	file, recv, name string
+	pre              bool // translate only the statements BEFORE the function's first top-level loop; the result is the locals
 	cases            bool // the function is an event loop `for { select { case ...: body } }`: one function per case
+	inner            bool // with iter: the loop is the endless loop NESTED in the function's outer endless loop
 	iter             bool // translate ONE ITERATION of the function's (single, conditional) top-level loop, locals as parameters
 }
 
@@ -86,6 +88,7 @@ var targets = []target{
 	{file: "pkg/cache/cache.go", recv: "", name: "saveMapGob"},
 	{file: "block/pending_base.go", recv: "pendingBase", name: "setLastSubmittedHeight"},
 	{file: "block/submitter.go", name: "submitToDA", iter: true},
+	{file: "block/da_includer.go", recv: "Manager", name: "DAIncluderLoop", iter: true, inner: true},
 	{file: "block/aggregation.go", recv: "Manager", name: "lazyAggregationLoop", cases: true},
 	{file: "block/aggregation.go", recv: "Manager", name: "normalAggregationLoop", cases: true},
 	{file: "block/aggregation.go", recv: "Manager", name: "produceBlock"},
@@ -95,6 +98,10 @@ var targets = []target{
 	{file: "block/manager.go", recv: "Manager", name: "execApplyBlock"},
 	{file: "block/manager.go", recv: "Manager", name: "getHeaderSignature"},
 	{file: "block/manager.go", recv: "Manager", name: "getDataSignature"},
+	{file: "apps/testapp/kv/kvexecutor.go", recv: "KVExecutor", name: "InitChain"},
+	{file: "apps/testapp/kv/kvexecutor.go", recv: "KVExecutor", name: "SetFinal"},
+	{file: "pkg/config/config.go", name: "Load"},
+	{file: "sequencers/based/sequencer.go", recv: "Sequencer", name: "GetNextBatch", pre: true},
 	{file: "pkg/signer/file/local.go", recv: "FileSystemSigner", name: "Sign"},
 	{file: "pkg/signer/file/local.go", recv: "FileSystemSigner", name: "GetPublic"},
 	{file: "pkg/signer/file/local.go", name: "LoadFileSystemSigner"},
@@ -135,6 +142,7 @@ func list(xs []string) string { return "[" + strings.Join(xs, "; ") + "]" }
 type tr struct {
 	imports map[string]bool // local names of imported packages in the current file
 	n       int
+	breakLocals string           // inside an inner loop translated as one iteration: what `break` becomes
 	inEndless bool               // inside the body of an endless loop translated as one iteration: `continue` = return $continue
 	nresults int                 // number of results of the function being translated
 	goTmps  map[string][]string // errgroup variable -> temporaries holding the results of its g.Go(func) bodies
@@ -833,6 +841,9 @@ func (t *tr) stmt(s ast.Stmt) string {
 		}
 		return "(SUnknown " + q("select "+text(x)) + ")"
 	case *ast.BranchStmt:
+		if x.Tok == token.BREAK && x.Label == nil && t.breakLocals != "" {
+			return t.breakLocals
+		}
 		if x.Tok == token.CONTINUE && x.Label == nil && t.inEndless {
 			return "(SReturn [(EVar " + q("$continue") + ")])"
 		}
@@ -849,6 +860,11 @@ func (t *tr) stmt(s ast.Stmt) string {
 						tmp := fmt.Sprintf("$r%d", t.fresh())
 						return "(SIf [] (EBool true) [(SAssign [" + q(tmp) + "] " + t.expr(c) + "); (SReturn [(EVar " + q(tmp) + ")])] [])"
 					}
+				}
+				if id, ok := c.Fun.(*ast.Ident); ok && t.nresults >= 2 && (id.Obj == nil || id.Obj.Kind == ast.Fun) {
+					// `return f(...)` handing on the several results of a package-level function of the same package
+					tmp := fmt.Sprintf("$r%d", t.fresh())
+					return "(SIf [] (EBool true) [(SAssign [" + q(tmp) + "] " + t.expr(c) + "); (SReturn [(EVar " + q(tmp) + ")])] [])"
 				}
 			}
 		}
@@ -980,6 +996,51 @@ func main() {
 				params = append(params, q(n.Name))
 			}
 		}
+		if tg.pre {
+			// the statements before the function's first top-level loop, then `return <the locals declared so far>`
+			var locals []string
+			seen := map[string]bool{}
+			var pre []ast.Stmt
+			found := false
+			for _, st := range fd.Body.List {
+				if _, ok := st.(*ast.ForStmt); ok {
+					found = true
+					break
+				}
+				if ls, ok := st.(*ast.LabeledStmt); ok {
+					if _, ok := ls.Stmt.(*ast.ForStmt); ok {
+						found = true
+						break
+					}
+				}
+				pre = append(pre, st)
+				if as, ok := st.(*ast.AssignStmt); ok && as.Tok == token.DEFINE {
+					for _, l := range as.Lhs {
+						if id, ok := l.(*ast.Ident); ok && id.Name != "_" && !seen[id.Name] {
+							seen[id.Name] = true
+							locals = append(locals, id.Name)
+						}
+					}
+				}
+			}
+			preIdent := ident + "_pre"
+			if !found {
+				fmt.Fprintf(&b, "Definition %s : gfun := {| f_recv := None; f_params := []; f_body := [SUnknown %s] |}.\n\n", preIdent, q("no top-level loop in "+key))
+				table = append(table, "("+q(key+"$pre")+", "+preIdent+")")
+				continue
+			}
+			t.nresults = 0
+			out := t.stmts(pre)
+			var lv []string
+			for _, n := range locals {
+				lv = append(lv, "(EVar "+q(n)+")")
+			}
+			out = append(out, "(SReturn ((EVar "+q("$loop")+") :: "+list(lv)+"))")
+			fmt.Fprintf(&b, "(* %s: %s up to its first loop; the result is the locals declared so far: %s *)\nDefinition %s : gfun := {| f_recv := %s; f_params := %s; f_body :=\n  %s |}.\n\n",
+				tg.file, key, strings.Join(locals, ", "), preIdent, recv, list(params), list(out))
+			table = append(table, "("+q(key+"$pre")+", "+preIdent+")")
+			continue
+		}
 		if tg.cases {
 			// an event loop: the last statement is `for { select { case <-a: ...; case x := <-b: ...; ... } }`.  One
 			// function per case: its body, then `return $continue`; `continue` likewise; a `return` is the loop's.
@@ -1072,8 +1133,17 @@ func main() {
 					locals = append(locals, n)
 				}
 			}
-			for _, st := range fd.Body.List {
-				if fs, ok := st.(*ast.ForStmt); ok && fs.Cond != nil && fs.Init == nil && fs.Post == nil {
+			scope := fd.Body.List
+			if tg.inner {
+				// the statements of the outer endless loop are the scope; its inner endless loop is the one translated
+				if n := len(scope); n >= 1 {
+					if outer, ok := scope[n-1].(*ast.ForStmt); ok && outer.Cond == nil && outer.Init == nil && outer.Post == nil {
+						scope = outer.Body.List
+					}
+				}
+			}
+			for _, st := range scope {
+				if fs, ok := st.(*ast.ForStmt); ok && fs.Init == nil && fs.Post == nil && (fs.Cond != nil || tg.inner) {
 					loop = fs
 					break
 				}
@@ -1109,8 +1179,14 @@ func main() {
 			ast.Inspect(loop.Body, func(n ast.Node) bool {
 				switch x := n.(type) {
 				case *ast.BranchStmt:
-					if x.Tok != token.FALLTHROUGH {
+					if x.Tok == token.BREAK && x.Label == nil && tg.inner {
+						// leaves the inner loop: `return $break, locals` (emitted by stmt() through t.breakLocals)
+					} else if x.Tok != token.FALLTHROUGH {
 						plain = false
+					}
+				case *ast.ForStmt, *ast.RangeStmt, *ast.SwitchStmt, *ast.SelectStmt:
+					if tg.inner {
+						plain = false // a `break` in there would mean something else
 					}
 				case *ast.LabeledStmt:
 					plain = false
@@ -1125,7 +1201,11 @@ func main() {
 			}
 			t.nresults = 0 // no hoisting of `return f()` by result count: the body's returns are the function's
 			var out []string
-			out = append(out, "(SIf [] (ENot "+t.expr(loop.Cond)+") [(SReturn ("+"(EVar "+q("$break")+") :: "+list(lv)+"))] [])")
+			if loop.Cond != nil {
+				out = append(out, "(SIf [] (ENot "+t.expr(loop.Cond)+") [(SReturn ("+"(EVar "+q("$break")+") :: "+list(lv)+"))] [])")
+			}
+			t.breakLocals = "(SReturn ((EVar " + q("$break") + ") :: " + list(lv) + "))"
+			defer func() { t.breakLocals = "" }()
 			if plain {
 				out = append(out, t.stmts(loop.Body.List)...)
 			} else {
